@@ -131,6 +131,7 @@ def run_unit(args):
         eng = core.Engine(**opts)
         known = known_for(load_known(prop), hname, config)
         ctx = SymCtx(eng, {'harness': hname, 'config': config}, known, o_rl, o_to)
+        ctx.cross_check = (tier == 'thorough')
         fn_set: set = set()
         cut_kinds: Dict[str, int] = {}
         path_ends: Dict[str, int] = {}
@@ -185,6 +186,7 @@ def run_unit(args):
             'undecided': ctx.undecided, 'samples': ctx.samples,
             'nontrivial_paths': ctx.nontrivial_paths,
             'assumption_notes': eng.assumption_notes,
+            'cross': ctx.cross,
             'functions': sorted(fn_set),
         })
     except BaseException as e:  # noqa
@@ -330,6 +332,7 @@ def run_property(prop: str, tier: str, seed: int, jobs: int = 0, only: Optional[
     notes: Dict[str, int] = {}
     all_candidates = []
     all_known_hits = []
+    cross = {'exported': 0, 'agree': 0, 'inconclusive': 0, 'disagree': 0}
     for h in hs:
         agg[h.name] = dict(units=0, paths=0, cut=0, cut_kinds={}, obligations=0, discharged=0, undecided=0,
                            candidates=0, known_hits=0, by={}, checks={}, reached={}, wall_s=0.0,
@@ -387,6 +390,8 @@ def run_property(prop: str, tier: str, seed: int, jobs: int = 0, only: Optional[
             notes[k] = notes.get(k, 0) + v
         all_candidates += r['candidates']
         all_known_hits += r['known_hits']
+        for k, v in (r.get('cross') or {}).items():
+            cross[k] = cross.get(k, 0) + v
     for h in hs:
         a = agg[h.name]
         for k in ('obligations', 'discharged', 'undecided', 'candidates', 'known_hits'):
@@ -469,6 +474,9 @@ def run_property(prop: str, tier: str, seed: int, jobs: int = 0, only: Optional[
             msgs.append('  undecided: ' + json.dumps(u, default=str)[:600])
         for c in unconfirmed[:5]:
             msgs.append('  unconfirmed: ' + json.dumps({k: c[k] for k in ("harness", "config", "check", "inputs")}, default=str)[:600])
+    if cross['disagree']:
+        status = EXIT_HARNESS
+        msgs.append(f'HARNESS-ERROR property={prop}: cvc5 answered sat on {cross["disagree"]} obligation(s) z3 discharged as unsat')
     if violations:
         status = EXIT_VIOLATION
 
@@ -495,6 +503,7 @@ def run_property(prop: str, tier: str, seed: int, jobs: int = 0, only: Optional[
                        'feasibility_unknown': total['feas_unknown'],
                        'obligation_queries': total['oblig_queries'], 'solver_seconds': round(total['solver_s'], 3)},
             'harnesses': {n: {k: (round(v, 3) if isinstance(v, float) else v) for k, v in a.items()} for n, a in agg.items()},
+            'cvc5_cross_check': dict(cross, note='thorough tier only: up to 2 z3-unsat obligations per check name and work unit are exported as SMT-LIB 2 and re-decided by the cvc5 1.0.3 binary (20 s); inconclusive = timeout / unknown / unsupported'),
             'functions_encoded': _src_hashes(sorted(fn_records)),
             'stubs': sorted({s for h in hs for s in h.stubs}),
             'outside_the_claim': sorted({s for h in hs for s in h.outside}),
